@@ -52,3 +52,13 @@ CLAIMED["C17"] = (
     "constructors and the config-file paths are covered only by the bounded two-artifact comparison and the definition-time randomness scan.",
     "Trusted: A-rng (the OS generator is fresh per call and per process; nothing is claimed across interpreter restarts beyond that), A-enc, A-smt.",
     "DESIGN.md 7 C17")
+CLAIMED["C18"] = (
+    "For the two cache loaders (DatabaseManager._get_quick_info_db, Database.DatabaseData.__init__) it is proved, against an adversarial "
+    "environment (pickle.load raises any of its documented/observed exceptions or returns any object; open/os.remove/os.makedirs may fail; "
+    "os.path.exists answers anything; FileLock may time out): no exception escapes (so every file content, hence every truncated prefix, is "
+    "tolerated), cached content is used only when it has the expected class and its stored hash equals the hash of the live data, and a cache "
+    "file is opened only while its lock is held (ghost permission). Real process interleavings, lock time-outs as liveness and start-up "
+    "latency are outside this family; byte-exact prefixes of the real cache files are a bounded check.",
+    "Trusted: the assumed environment models in vf/extmodels.py (A-pickle, A-fs), assumed contracts for the hash of the live data and the "
+    "full load (the uncached oracle), A-enc, A-smt.",
+    "DESIGN.md 7 C18")
